@@ -15,8 +15,10 @@
    C12_Corr.v instantiates to evaluate the model.  Everything random in the code is an input of the
    operation (bcrypt salt, session id, which cache entry the random replacement evicted) except the
    session UUID, which is a counter: "uuid.NewString() never repeats" is an assumption of the model.
-   Time is a virtual clock moved by [Advance]; a session document is gone (the store's TTL) as soon
-   as [now >= expires].  Mutex/KV-atomic methods are atomic steps; the one place where the property
+   Time is a virtual clock moved by [Advance]; every write of a session document carries a bucket expiry
+   ([s_docexp]: CreateSession and the refresh of AuthenticateCookie both pass DurationToCbsExpiry(ttl)), and a
+   document whose expiry is e <> 0 is gone (the store's TTL) as soon as [now >= e]; a document written WITHOUT an
+   expiry would stay for ever -- the code never compares LoginSession.Expiration with the clock.  Mutex/KV-atomic methods are atomic steps; the one place where the property
    speaks about schedules (one-time sessions) has its own interleaving model in OneTime.v. *)
 From SG Require Import Base.Prelude.
 Open Scope N_scope.
@@ -90,7 +92,8 @@ Inductive op :=
 | RehashSave (a salt : N) (ev : option (N * N * N * N))
 | AuthCookie (sid : N)                      (* AuthenticateCookie *)
 | AuthOneTime (sid : N)                     (* AuthenticateOneTimeSession *)
-| GetSession (sid : N).
+| GetSession (sid : N)
+| DocExpiry (sid : N).                      (* observation only: datastore.GetExpiry of the session document *)
 
 Inductive err := ENoUser | EExists | EPwTooLong | EBadTTL | EDisabled | ENotFound | E401.
 
@@ -100,7 +103,9 @@ Inductive out :=
 | OPass (who : option N) (cache_len : N)    (* AuthenticateUser result, cachedHashes.Len() after *)
 | OCookie (who : option N) (refreshed : bool)  (* AuthenticateCookie result, Set-Cookie written *)
 | OUser (who : N)                           (* AuthenticateOneTimeSession / GetSession success *)
-| ORehash (wrote : bool).                   (* did this Save attempt write the re-hashed password *)
+| ORehash (wrote : bool)                    (* did this Save attempt write the re-hashed password *)
+| OExp (e : option N).                      (* None = no such document; Some 0 = a document without bucket expiry;
+                                               Some r = the store removes the document in r seconds *)
 
 (* who was authenticated by this call, if anybody *)
 Definition authed (o : out) : option N :=
@@ -125,7 +130,10 @@ Section Model.
   Record session := mkSess {
     s_user : N;                 (* Username *)
     s_uuid : N;                 (* SessionUUID copied from the user at creation *)
-    s_expires : N;              (* Expiration = expiry of the document in the store *)
+    s_expires : N;              (* Expiration: a field of the document; AuthenticateCookie never compares it with
+                                   the clock, it only enters the refresh rule *)
+    s_docexp : N;               (* the bucket expiry the document was WRITTEN with (absolute time; 0 = none: the
+                                   store never removes the document).  This is what makes sessions expire *)
     s_ttl : N;                  (* Ttl *)
     s_onetime : bool            (* OneTime *)
   }.
@@ -232,7 +240,7 @@ Section Model.
   (* datastore.Get of the session document: the store has removed it once it expired *)
   Definition get_session (st : state) (sid : N) : option session :=
     match alookup sid (sessions st) with
-    | Some s => if now st <? s_expires s then Some s else None
+    | Some s => if (s_docexp s =? 0) || (now st <? s_docexp s) then Some s else None
     | None => None
     end.
 
@@ -241,7 +249,7 @@ Section Model.
     (s_ttl s / 10 <? now st + s_ttl s - s_expires s) && negb (s_onetime s).
 
   Definition refreshed (st : state) (s : session) : session :=
-    mkSess (s_user s) (s_uuid s) (now st + s_ttl s) (s_ttl s) (s_onetime s).
+    mkSess (s_user s) (s_uuid s) (now st + s_ttl s) (now st + s_ttl s) (s_ttl s) (s_onetime s).
 
   (* "user == nil || [user.Disabled() ||] session.SessionUUID != user.GetSessionUUID()":
      Some name = the session is valid for that user; [ccd] = is the Disabled() test there *)
@@ -294,7 +302,7 @@ Section Model.
         | Some usr =>
             if ttl =? 0 then (st, OErr EBadTTL)
             else if u_disabled usr then (st, OErr EDisabled)
-            else (with_sessions st (aset sid (mkSess u (u_uuid usr) (now st + ttl) ttl onetime) (sessions st)), ODone)
+            else (with_sessions st (aset sid (mkSess u (u_uuid usr) (now st + ttl) (now st + ttl) ttl onetime) (sessions st)), ODone)
         end
     | DeleteSession sid =>
         match get_session st sid with
@@ -365,6 +373,11 @@ Section Model.
             | None => (st, OErr ENotFound)
             | Some w => (st, OUser w)
             end
+        end
+    | DocExpiry sid =>
+        match get_session st sid with
+        | None => (st, OExp None)
+        | Some s => (st, OExp (Some (if s_docexp s =? 0 then 0 else s_docexp s - now st)))
         end
     end.
 
